@@ -172,6 +172,10 @@ struct qs_agent {
 			if(_acked_qs_counter != ctr) {
 				FRG_ASSERT(_acked_qs_counter + 1 == ctr);
 
+				// Pairs with the fence in await_barrier()/quiescent_barrier(): whatever we read from now on
+				// is ordered after our observation of the new period.
+				std::atomic_thread_fence(std::memory_order_seq_cst);
+
 				// Now ack the QS.
 				if(_dom->_agents_to_ack.fetch_sub(1, std::memory_order_acq_rel) == 1) {
 					auto desired = _dom->_desired_qs_counter.load(std::memory_order_relaxed);
@@ -191,6 +195,10 @@ struct qs_agent {
 	}
 
 	void quiescent_barrier() {
+		// Everything the caller did before (e.g. unlinking an object) has to be visible to the other agents
+		// before we sample the counter: otherwise an agent could ack the period we read and still see the old state.
+		std::atomic_thread_fence(std::memory_order_seq_cst);
+
 		// Advance the desired QS counter.
 		auto target = _dom->_qs_counter.load(std::memory_order_relaxed) + 2;
 		auto c = _dom->_desired_qs_counter.load(std::memory_order_relaxed);
@@ -206,6 +214,9 @@ struct qs_agent {
 	}
 
 	void await_barrier(qs_node *node) {
+		// See quiescent_barrier(): order the caller's earlier stores before the sample of the counter.
+		std::atomic_thread_fence(std::memory_order_seq_cst);
+
 		// Advance the desired QS counter.
 		auto target = _dom->_qs_counter.load(std::memory_order_relaxed) + 2;
 		auto c = _dom->_desired_qs_counter.load(std::memory_order_relaxed);
